@@ -505,13 +505,22 @@ func runC10(c *Ctx) {
 			v, isC := constInt(info, as.Rhs[0])
 			c.Check(isC && v == ' ', "C10-R3", "emptyCurrentLine:stores a space", as.Pos(), "' '", "blanking writes something other than a space")
 			ix := as.Lhs[0].(*ast.IndexExpr)
+			// the byte at that index is also known as the value variable of `for i, b := range r.buf`
+			var elem types.Object
+			epm := parentMap(ecl.Decl.Body)
+			for cur := epm[ast.Node(as)]; cur != nil; cur = epm[cur] {
+				if rs, ok := cur.(*ast.RangeStmt); ok && fieldSel(info, rs.X, CR, "buf") && rs.Key != nil && rs.Value != nil && objOf(info, rs.Key) != nil && objOf(info, rs.Key) == objOf(info, ix.Index) {
+					elem = objOf(info, rs.Value)
+				}
+			}
 			notNL := fl.Dominated(s.Site, nil, func(a Atom) bool {
 				be, ok := ast.Unparen(a.E).(*ast.BinaryExpr)
 				if !ok || a.Tag != nil {
 					return false
 				}
-				lhs, ok := be.X.(*ast.IndexExpr)
-				if !ok || !fieldSel(info, lhs.X, CR, "buf") || exprStr(lhs.Index) != exprStr(ix.Index) {
+				lhs, ok := ast.Unparen(be.X).(*ast.IndexExpr)
+				isElem := elem != nil && objOf(info, be.X) == elem
+				if !isElem && (!ok || !fieldSel(info, lhs.X, CR, "buf") || exprStr(lhs.Index) != exprStr(ix.Index)) {
 					return false
 				}
 				k, isC := constInt(info, be.Y)
